@@ -261,35 +261,76 @@ def rule_T4(ctx: Ctx) -> None:
 
 def rule_T6(ctx: Ctx) -> None:
     g = ctx.index.func(f"{MT}.AdjListTokenizers._AdjListTokenizer._tokenize_edge_grouping")
-    ORD = "group_params['connection_token_ordinal']"
-    is_ord = lambda e: X.same_expr(X.expand_locals(e, g.node), ORD)  # the ordinal, directly or through a local
-    ok0 = True
-    perms = [n for n in ast.walk(g.node) if isinstance(n, (ast.Assign, ast.AnnAssign)) and X.U(n.targets[0] if isinstance(n, ast.Assign) else n.target) == "callable_permutation"]
-    perm = [n for n in perms if isinstance(n.value, ast.List)]
-    gp = [n for n in perms if isinstance(n.value, ast.IfExp)]
-    ins = [n for n in ast.walk(g.node) if isinstance(n, ast.Expr) and isinstance(n.value, ast.Call) and X.U(n.value.func) == "callable_permutation.insert"
-           and len(n.value.args) == 2 and is_ord(n.value.args[0]) and N.const_int(n.value.args[1]) == 1]
-    other_ins = [n for n in ast.walk(g.node) if isinstance(n, ast.Call) and X.U(n.func) == "callable_permutation.insert"]
-    ok0 = len(other_ins) == len(ins)
-    ev = Evaluator()
-    results = {}
-    ok = ok0 and len(perm) == 1 and len(ins) == 1
-    if ok:
-        base = ev.ev(perm[0].value, {})
+    # abstract evaluation over 3 symbolic edges whose parts are the symbolic token lists L_i (leading coord), C_i (connector / wall),
+    # T_i (trailing coord), for every (grouped, ordinal, intra): 12 configurations
+    from sa.absnp import Arr
+    from sa.fold import EvalRaised, Evaluator, Obj, Unknown, safe
+
+    @safe
+    def lead(i):
+        return [f"L{i}"]
+
+    @safe
+    def conn(i):
+        return [f"C{i}"]
+
+    @safe
+    def trail(i):
+        return [f"T{i}"]
+
+    def _flat(x):
+        out = []
+        for y in x:
+            if isinstance(y, (list, tuple)):
+                out.extend(_flat(y))
+            else:
+                out.append(y)
+        return out
+
+    def hook(ev, node, env):
+        d = dotted_of(node.func) or ""
+        if d.endswith("_tokenization_callables"):
+            return [lead, conn, trail]
+        if d == "is_connection":
+            return "<is_conn>"
+        if d == "flatten":
+            return _flat(ev.ev(node.args[0], env))
+        if d == "empty_sequence_if_attr_false" and len(node.args) == 3:
+            seq, obj, attr = (ev.ev(a, env) for a in node.args)
+            flag = obj[attr] if isinstance(obj, dict) else obj.attrs[attr]
+            return seq if flag else ()
+        return NotImplemented
+    pg = g.params()
+    bad, unk = [], []
+    n_edges = 3
+    for grouped in (False, True):
         for o in (0, 1, 2):
-            p_ = list(base)
-            p_.insert(o, 1)
-            results[o] = p_
-        ok = results == {0: [1, 0, 2], 1: [0, 1, 2], 2: [0, 2, 1]}
-    ctx.judge(g, ok, {"ordinal_to_order(0=lead,1=connector,2=trail)": {str(k): v for k, v in results.items()}},
+            for intra in (False, True):
+                env = {pg[0]: Obj("AdjListTokenizer"), pg[1]: Arr([[[k, 0], [k, 1]] for k in range(n_edges)]), pg[2]: Obj("maze", {"connection_list": "<CL>"}),
+                       pg[3]: Obj("coord_tokenizer"), pg[4]: {"connection_token_ordinal": o, "grouped": grouped, "intra": intra},
+                       "VOCAB": Obj("VOCAB", {"ADJLIST_INTRA": "<INTRA>"})}
+                if grouped:
+                    want = ["L0"] + [t for i in range(n_edges) for t in (([f"C{i}", f"T{i}"] if o == 0 else [f"T{i}", f"C{i}"]) + (["<INTRA>"] if intra else []))]
+                else:
+                    order = {0: "CLT", 1: "LCT", 2: "LTC"}[o]
+                    want = [t for i in range(n_edges) for t in ([f"{c_}{i}" for c_ in order] + (["<INTRA>"] if intra else []))]
+                try:
+                    got = Evaluator({"__call__": hook}).run_body(X.body_wo_doc(g.node), env)
+                    got = list(got) if isinstance(got, (list, tuple)) else got
+                except EvalRaised as e:
+                    got = f"raises {e.exc_name}"
+                except Unknown as e:
+                    unk.append(str(e)[:140])
+                    continue
+                if got != want:
+                    bad.append({"grouped": grouped, "ordinal": o, "intra": intra, "found": got, "expected": want})
+    ok_u = False if [b for b in bad if not b["grouped"]] else None if unk else True
+    ok_g = False if [b for b in bad if b["grouped"]] else None if unk else True
+    ctx.judge(g, ok_u, {"configurations": 6, "deviations": [b for b in bad if not b["grouped"]][:2], "undecided": unk[:2]},
               "ungrouped edges: leading coord and trailing part keep their order, the connector/wall token sits at connection_token_ordinal (0, 1 or 2)",
               "the connector appears at another position than configured / the two coordinates are swapped")
-    # grouped branch: [1, 2] if ordinal 0 else [2, 1], under group_params['grouped']
-    par = X.parents_map(g.node)
-    under_grouped = bool(gp) and isinstance(par.get(gp[0]), ast.If) and X.U(par[gp[0]].test).replace('"', "'") == "group_params['grouped']"
-    ctx.judge(g, len(gp) == 1 and under_grouped and isinstance(gp[0].value.test, ast.Compare) and len(gp[0].value.test.ops) == 1 and isinstance(gp[0].value.test.ops[0], ast.Eq)
-              and is_ord(gp[0].value.test.left) and N.const_int(gp[0].value.test.comparators[0]) == 0 and X.same_expr(gp[0].value.body, "[1, 2]") and X.same_expr(gp[0].value.orelse, "[2, 1]"), {"grouped": X.U(gp[0].value) if gp else None},
-              "grouped edges: connector before the trailing part iff the ordinal is 0")
+    ctx.judge(g, ok_g, {"configurations": 6, "deviations": [b for b in bad if b["grouped"]][:2], "undecided": unk[:2]},
+              "grouped edges: the leading coord once, then per edge connector and trailing part, connector first iff the ordinal is 0")
     u = ctx.index.cls(f"{MT}.EdgeGroupings.Ungrouped")
     f = u.fields.get("connection_token_ordinal")
     ok = f is not None and X.U(f.annotation) == "Literal[0, 1, 2]" and N.const_int(f.default) == 1
